@@ -363,10 +363,27 @@ def gen_C16(rng, tier):
         f = gen.gen_file(rng, big=rng.random() < 0.15)
         qs = gen.gen_intervals(rng, f, 12)
         if rng.random() < 0.3:
-            # redeclare a contig with another size on one side
+            # a chain with an empty extent (start == end on both sides, one record "0") still declares its contigs
+            e = dict(score=1, tname=rng.choice(["emptyT", rng.choice(f)["tname"]]), tsize=rng.randint(0, 50), tstrand=rng.choice("+-"),
+                     qname=rng.choice(["emptyQ", rng.choice(f)["qname"]]), qsize=rng.randint(0, 50), qstrand=rng.choice("+-"), id=77, blocks=[(0,)])
+            for side in "tq":
+                known = [c[side + "size"] for c in f if c[side + "name"] == e[side + "name"]]
+                if known:
+                    e[side + "size"] = known[0]
+                p0 = rng.randint(0, e[side + "size"])
+                e[side + "start"] = e[side + "end"] = p0
+            f = list(f)
+            f.insert(rng.randint(0, len(f)), e)
+        if rng.random() < 0.3:
+            # redeclare a contig with another size on one side (sometimes smaller, sometimes through an empty-extent chain)
             c = copy.deepcopy(rng.choice(f))
             side = rng.choice("tq")
-            c[side + "size"] += rng.choice([1, 5, 1000])
+            if rng.random() < 0.3:
+                c.update(blocks=[(0,)], tstart=0, tend=0, qstart=0, qend=0)
+            delta = rng.choice([1, 5, 1000])
+            if rng.random() < 0.4 and c[side + "size"] - delta >= c[side + "end"]:
+                delta = -delta
+            c[side + "size"] += delta
             if rng.random() < 0.5:
                 c[("q" if side == "t" else "t") + "name"] += "_o"
             g = list(f)
@@ -611,7 +628,8 @@ def gen_C08(rng, tier):
         chunks = gen.composition(rng, data, rng.choice(["rand", "rand", "bytes" if len(data) < 200 else "rand"]))
         cases, meta = [build_case(data, qs, chunks)], []
         for k in range(len(chunks) + 1):
-            cases.append(build_case(data, qs, chunks[:k] + ["f"] + chunks[k:]))
+            kind = rng.choice(["f", "f", "u", "r", "w"]) if k % 3 else ["f", "u", "r", "w"][(k // 3) % 4]
+            cases.append(build_case(data, qs, chunks[:k] + [kind] + chunks[k:]))
             cases.append(build_case(data, qs, chunks[:k] + ["i"] + chunks[k:]))
         cases.append(build_case(data, qs, [x for c in chunks for x in ("i", c)] + ["i", "i"]))
         groups.append(group("faults", "c08_faults", cases))
@@ -892,6 +910,10 @@ def gen_C13(rng, tier):
         d_odd, d_can = gen.render_lines(odd), gen.render(f, blanks=1)
         groups.append(group("file", "c13_file", ["sections " + gen.src_tok(d_odd), "sections " + gen.src_tok(d_can),
                                                  build_case(d_odd, qs), build_case(d_can, qs)]))
+        # the re-serialised bytes must be accepted identically however the reader chunks them
+        ch = gen.composition(rng, d_can, "bytes" if len(d_can) < 600 else "rand")
+        groups.append(group("file-chunked", "c13_file", ["sections " + gen.src_tok(d_can, ch), "sections " + gen.src_tok(d_can),
+                                                         build_case(d_can, qs, ch), build_case(d_can, qs)]))
     return groups
 
 
